@@ -164,8 +164,10 @@ def macro_family(oid, vi, lv, sval, vval, name, fargs, lv_other=None):
         '    emit(%d, "mv%d", &html(%std_format!(%s, move || %s, formatter: %s%s)));' % (oid, vi, F, lv, vval, name, fargs),
         '    with_ctx(%s, |i18n| { emit(%d, "mc%d", &%st_format_string!(i18n, %s, formatter: %s%s)); '
         'emit(%d, "mu%d", &%stu_format_display!(i18n, %s, formatter: %s%s).to_string()); '
-        'emit(%d, "mw%d", &html(%st_format!(i18n, move || %s, formatter: %s%s))); });' % (
-            lv, oid, vi, F, sval, name, fargs, oid, vi, F, sval, name, fargs, oid, vi, F, vval, name, fargs),
+        'emit(%d, "mw%d", &html(%st_format!(i18n, move || %s, formatter: %s%s))); '
+        'emit(%d, "mt%d", &%stu_format_string!(i18n, %s, formatter: %s%s)); '
+        'emit(%d, "mp%d", &%st_format_display!(i18n, %s, formatter: %s%s).to_string()); });' % (
+            lv, oid, vi, F, sval, name, fargs, oid, vi, F, sval, name, fargs, oid, vi, F, vval, name, fargs, oid, vi, F, sval, name, fargs, oid, vi, F, sval, name, fargs),
     ] + ([
         # history: the view is built while another locale is current, the locale is set, then it is rendered
         '    with_ctx(%s, |i18n| { let v = %st_format!(i18n, move || %s, formatter: %s%s); let u = %stu_format!(i18n, move || %s, formatter: %s%s); i18n.set_locale(%s); '
@@ -196,7 +198,7 @@ def ref_lines(oid, lv, i, name):
 
 
 FLAVOUR_NAMES = {"s": "td_string", "v": "td", "m": "td_format_string", "md": "td_format_display", "mv": "td_format", "mc": "t_format_string",
-                 "mu": "tu_format_display", "mw": "t_format", "mx": "t_format-built-before-set_locale", "my": "tu_format-built-before-set_locale", "rs": "td_string-through-foreign-key", "rv": "td-through-foreign-key",
+                 "mu": "tu_format_display", "mw": "t_format", "mt": "tu_format_string", "mp": "t_format_display", "mx": "t_format-built-before-set_locale", "my": "tu_format-built-before-set_locale", "rs": "td_string-through-foreign-key", "rv": "td-through-foreign-key",
                  "rh": "td_string-through-foreign-key-with-args"}
 
 
@@ -300,7 +302,7 @@ def e2e_stage(res, tier, seed):
         while "exp%d" % vi in got:
             want = got["exp%d" % vi]["v"]
             texts.setdefault((exp["name"], exp["locale"], vi), {}).setdefault(exp["canon"], want)
-            for fl in ("s", "v", "m", "md", "mv", "mc", "mu", "mw", "mx", "my", "rs", "rv", "rh"):
+            for fl in ("s", "v", "m", "md", "mv", "mc", "mu", "mw", "mt", "mp", "mx", "my", "rs", "rv", "rh"):
                 o = got.get("%s%d" % (fl, vi))
                 if o is None:
                     continue
